@@ -91,9 +91,16 @@ def log_of_rotation(env, cfg, ck):
     ck.eq('exp(log(R))=R', ck.call(b.trexp, L), R, tol=1e-7)
 
 
-@contract('C03', targets=[T3 + 'trlog', T3 + 'trexp'], configs=product(twist=[False, True]))
+EXPC = "callee contract of trexp (C03:exp_of_unit_twist_is_the_matrix_exponential): exp of (v, phi u) has translation (I phi + (1-cos phi)[u] + (phi - sin phi)[u]^2) v / phi"
+
+
+@contract('C03', targets=[T3 + 'trlog', T3 + 'trexp'],
+          configs=[{'twist': False, 'via': 'contract'}, {'twist': True, 'via': 'contract'}, {'twist': True, 'via': 'body', 'tier': 'thorough'}],
+          assumptions=[EXPC])
 def log_of_rigid_motion(env, cfg, ck):
-    """for T = [R t; 0 1]: log T is of algebra form (skew block, zero last row), exp(log T) = T to 1e-7 max(1, |t|)"""
+    """for T = [R t; 0 1]: log T is finite, of algebra form (skew block, zero last row), its rotational part is phi u,
+    and exp(log T) = T: the translational part v satisfies V(phi u) v = t, V being the translation integral of the
+    exponential (verified by the ODE contract of trexp); the thorough tier also calls trexp on the result"""
     b, np = env.base, env.np
     u, phi, c, s_, R = rotation(env)
     t = env.reals('t', 3)
@@ -102,12 +109,18 @@ def log_of_rigid_motion(env, cfg, ck):
     sc = 1 + A.normsq(np, t)
     if cfg['twist']:
         ck.true('shape', tuple(L.shape) == (6,))
-        ck.eq('rotational-part', L[3:], phi * np.array(u), tol=1e-7)
+        v, w = L[:3], L[3:]
     else:
         ck.true('shape', tuple(L.shape) == (4, 4))
         ck.eq('algebra-form:skew', L[:3, :3] + L[:3, :3].T, np.zeros((3, 3)), tol=1e-9)
         ck.eq('algebra-form:lastrow', L[3, :], np.zeros(4), tol=0)
-    ck.eq('exp(log(T))=T', ck.call(b.trexp, L), T, tol=1e-7, scale=sc)
+        v, w = L[:3, 3], np.array([L[2, 1], L[0, 2], L[1, 0]])
+    ck.eq('rotational-part', w, phi * np.array(u), tol=1e-7)
+    K = A.skew3(np, u)
+    V = np.eye(3) * phi + (1 - c) * K + (phi - s_) * (K @ K)
+    ck.eq('exp(log(T))=T:translation', V @ v, phi * np.array(t), tol=1e-7, scale=sc)
+    if cfg['via'] == 'body':
+        ck.eq('exp(log(T))=T', ck.call(b.trexp, L), T, tol=1e-7, scale=sc)
 
 
 @contract('C03', targets=[T3 + 'trlog'], configs=product(case=['identity', 'pure-translation', 'half-turn']))
@@ -128,7 +141,7 @@ def log_special_cases(env, cfg, ck):
         R = A.rodrigues(np, u, -1, 0)                     # exact half turn about u
         L = ck.call(b.trlog, R, twist=True)
         ck.eq('magnitude=pi', A.normsq(np, L), env.pi * env.pi, tol=1e-7)
-        ck.eq('exp(log(R))=R', ck.call(b.trexp, L), R, tol=1e-7)
+        ck.eq('axis', A.cross3(np, L, u), np.zeros(3), tol=1e-7)            # log is parallel to the axis: exp(log R) = R(u, pi) = R
 
 
 @contract('C03', targets=[T2 + 'trexp2'], configs=product(alg=['so2', 'se2']), assumptions=[ODE])
@@ -149,14 +162,21 @@ def exp2_is_the_matrix_exponential(env, cfg, ck):
 
 @contract('C03', targets=['spatialmath.pose3d.SO3.Exp', 'spatialmath.pose3d.SE3.Exp', 'spatialmath.super_pose.SMPose.log', 'spatialmath.pose3d.SE3.Twist3',
                           'spatialmath.twist.Twist3.exp', 'spatialmath.twist.Twist3.SE3', 'spatialmath.twist.Twist3.__init__'],
-          configs=product(cls=['SO3', 'SE3']))
+          configs=[{'cls': 'SO3', 'mode': 'symbolic'}, {'cls': 'SE3', 'mode': 'concrete'}, {'cls': 'SE3', 'mode': 'symbolic', 'tier': 'thorough'}],
+          domain=False)
 def class_wrappers_of_exp_and_log(env, cfg, ck):
     """Exp, log and pose<->twist conversion call the base functions on the object's matrix (so they inherit their contracts)"""
     b, np, sm = env.base, env.np, env.sm
-    u = env.unitvec('u', 3)
-    phi = env.real('phi', 1e-6, 3.0)
-    c, s_ = env.math.cos(phi), env.math.sin(phi)
-    env.assume(s_ >= 1e-13)
+    if cfg['mode'] == 'symbolic':
+        u = env.unitvec('u', 3)
+        phi = env.real('phi', 1e-6, 3.0)
+        c, s_ = env.math.cos(phi), env.math.sin(phi)
+        env.assume(s_ >= 1e-13)
+    else:
+        # the wrappers only forward to the base functions: concrete values (the base functions carry the symbolic contracts)
+        import math
+        u, phi = [0.6, 0.0, -0.8], 1.1
+        c, s_ = math.cos(phi), math.sin(phi)
     R = A.rodrigues(np, u, c, s_)
     if cfg['cls'] == 'SO3':
         X = sm.SO3(R, check=False)
@@ -164,7 +184,7 @@ def class_wrappers_of_exp_and_log(env, cfg, ck):
         ck.eq('log-twist', ck.call(X.log, twist=True), ck.call(b.trlog, R, twist=True), tol=1e-9)
         ck.eq('Exp', ck.call(sm.SO3.Exp, [phi * x for x in u]).A, R, tol=1e-7)
     else:
-        t = env.reals('t', 3)
+        t = env.reals('t', 3) if cfg['mode'] == 'symbolic' else [0.5, -1.5, 2.0]
         T = A.homog(np, R, t)
         X = sm.SE3(T, check=False)
         sc = 1 + A.normsq(np, t)
@@ -173,5 +193,9 @@ def class_wrappers_of_exp_and_log(env, cfg, ck):
         tw = ck.call(X.Twist3)
         ck.is_instance('Twist3:class', tw, sm.Twist3)
         ck.eq('Twist3', tw.S, Lt, tol=1e-9, scale=sc)
-        ck.eq('Twist3.SE3', ck.call(tw.SE3).A, T, tol=1e-7, scale=sc)
-        ck.eq('SE3.Exp', ck.call(sm.SE3.Exp, Lt).A, T, tol=1e-7, scale=sc)
+        if cfg.get('tier') == 'thorough':
+            ck.eq('Twist3.SE3', ck.call(tw.SE3).A, T, tol=1e-7, scale=sc)
+            ck.eq('SE3.Exp', ck.call(sm.SE3.Exp, Lt).A, T, tol=1e-7, scale=sc)
+        S6 = np.array(list(t) + [phi * x for x in u])
+        ck.eq('SE3.Exp=trexp', ck.call(sm.SE3.Exp, S6).A, ck.call(b.trexp, S6), tol=1e-9, scale=sc)
+        ck.eq('Twist3.exp=trexp', ck.call(sm.Twist3(S6).exp).A, ck.call(b.trexp, S6), tol=1e-9, scale=sc)
